@@ -129,11 +129,12 @@ class CollectionPipelineRule(BaseLintRule):  # thailint: ignore[srp,dry]
         if config_dict is None or not isinstance(config_dict, dict):
             return CollectionPipelineConfig()
 
-        # Check for collection_pipeline or collection-pipeline specific config
-        linter_config = config_dict.get(
-            "collection_pipeline", config_dict.get("collection-pipeline", config_dict)
-        )
-        return CollectionPipelineConfig.from_dict(linter_config)
+        # Check for collection_pipeline or collection-pipeline specific config; `pipeline` is the
+        # section name of the command and of the file `thailint init-config` writes
+        for key in ("collection_pipeline", "collection-pipeline", "pipeline"):
+            if isinstance(config_dict.get(key), dict):
+                return CollectionPipelineConfig.from_dict(config_dict[key])
+        return CollectionPipelineConfig.from_dict(config_dict)
 
     def _is_file_ignored(self, context: BaseLintContext, config: CollectionPipelineConfig) -> bool:
         """Check if file matches ignore patterns.
